@@ -409,12 +409,12 @@ static void check_tokenize(Ctx &c, const std::string &subj, int di)
 }
 
 // ---------------------------------------------------------------- stage tables
-static const uint64_t MAXES[] = {0, 1, 2, 3, UINT64_MAX - 1, UINT64_MAX};
-enum { NMAX = 6 };
+static const uint64_t MAXES[] = {0, 1, 2, 3, UINT64_MAX - 1, UINT64_MAX, uint64_t(1) << 32, (uint64_t(1) << 32) + 1, uint64_t(1) << 31, uint64_t(1) << 63};
+enum { NMAX = 8 };  // the first eight: 2^31 and 2^63 only in the long stages
 
 static const char *const LONG_SEPS[] = {",", ",,", "a,", "aa"};
 static const char *const LONG_TOS[] = {"", "b", "bb", "b,b", ",,,"};
-static const uint64_t LONG_MAXES[] = {1, 3, UINT64_MAX};
+static const uint64_t LONG_MAXES[] = {1, 3, UINT64_MAX, uint64_t(1) << 32};
 
 static std::string binary_subject(const Segments &seg, const std::vector<unsigned> &lens, uint64_t idx)
 {
@@ -456,7 +456,7 @@ static void build(vf::Plan &plan, const vf::Opts &o)
     // ---- split
     auto split_stage = [&](unsigned L, unsigned SEPL) {
         const uint64_t nsep = vf::seq_count(SA.size(), SEPL);
-        auto &st = plan.stage(strf("split:{a,b,A,',',NUL}^<=%u x sep^<=%u x 6 max_splits x 4 forms x cs/ci", L, SEPL),
+        auto &st = plan.stage(strf("split:{a,b,A,',',NUL}^<=%u x sep^<=%u x 8 max_splits x 4 forms x cs/ci", L, SEPL),
                               vf::seq_count(SA.size(), L) * nsep * NMAX,
                               [SA, L, SEPL, nsep](uint64_t idx, Ctx &c) {
                                   uint64_t max = MAXES[vf::take(idx, NMAX)];
@@ -645,6 +645,42 @@ static void build(vf::Plan &plan, const vf::Opts &o)
                                   return strf("s=%s pattern=%s", vf::vis(text).c_str(), vf::vis(pat).c_str());
                               });
         st.case_timeout_s = 10;
+    }
+    // null pointers where C text is expected: a null replacement is the empty replacement, a null pattern matches nothing
+    {
+        const std::string NA("ab,A", 4);
+        plan.stage("replace with a null replacement / a null pattern pointer ({a,b,',',A}^<=5 x pattern^<=2 x overloads taking C text)", vf::seq_count(NA.size(), 5) * vf::seq_count(NA.size(), 2),
+                   [NA](uint64_t i, Ctx &c) {
+                       std::string from = seq_string(vf::take(i, vf::seq_count(NA.size(), 2)), NA, 2), subj = seq_string(i, NA, 5);
+                       ST::string s = mkst(subj), fs = mkst(from);
+                       auto bytes = [](const ST::string &x) { return std::string(x.c_str(), x.size()); };
+                       const char *nul = nullptr;
+                       const char8_t *nul8 = nullptr;
+                       vf::Outcome o = vf::guard([&] {
+                           for (int ci = 0; ci < 2; ++ci) {
+                               ST::case_sensitivity_t cs = ci ? ST::case_insensitive : ST::case_sensitive;
+                               std::string want = bytes(s.replace(fs, ST::string(), cs));
+                               std::string g[6] = {bytes(s.replace(from.c_str(), nul, cs)), bytes(s.replace(fs, nul, cs)), bytes(s.replace((const char8_t *)from.c_str(), nul8, cs)),
+                                                   bytes(s.replace(fs, nul8, cs)), bytes(s.replace(from.c_str(), nul, cs, ST::check_validity)), bytes(s.replace(fs, nul, cs, ST::check_validity))};
+                               static const char *const GN[6] = {"const char*,null", "ST::string,null", "const char8_t*,null", "ST::string,null char8_t*", "const char*,null,cs,validation", "ST::string,null,cs,validation"};
+                               VF_COUNT("validated");
+                               for (int k = 0; k < 6; ++k)
+                                   if (g[k] != want)
+                                       c.fail(strf("replace(%s):null-replacement:differs-from-empty-replacement", GN[k]),
+                                              strf("s=%s from=%s: %s, with an empty replacement %s", vf::vis(subj).c_str(), vf::vis(from).c_str(), vf::vis(g[k]).c_str(), vf::vis(want).c_str()));
+                               std::string h[3] = {bytes(s.replace(nul, "x", cs)), bytes(s.replace(nul, fs, cs)), bytes(s.replace(nul8, u8"x", cs))};
+                               VF_COUNT("validated");
+                               for (int k = 0; k < 3; ++k)
+                                   if (h[k] != subj) c.fail("replace(null pattern):text-changed", strf("s=%s: %s", vf::vis(subj).c_str(), vf::vis(h[k]).c_str()));
+                           }
+                       });
+                       if (!o.ok()) c.fail(strf("replace(null pointer):%s", vf::outkind_name(o.kind)), o.str());
+                       if (!from.empty() && subj.find(from) != std::string::npos) c.nontrivial();
+                   },
+                   [NA](uint64_t i) {
+                       std::string from = seq_string(vf::take(i, vf::seq_count(NA.size(), 2)), NA, 2);
+                       return strf("s=%s from=%s", vf::vis(seq_string(i, NA, 5)).c_str(), vf::vis(from).c_str());
+                   });
     }
     {
         auto cases = std::make_shared<std::vector<lp::LN>>(lp::cases_very_long());
